@@ -12,8 +12,14 @@ OV=$(mktemp /tmp/ovl-XXXXXX.json)
 python3 - "$WT" "$OV" <<'PY'
 import sys, json, subprocess
 wt, ov = sys.argv[1:3]
-files = subprocess.run(['git','-C',wt,'diff','--name-only'],capture_output=True,text=True).stdout.split()
-json.dump({"Replace": {"/repo/"+f: wt+"/"+f for f in files}}, open(ov,'w'))
+files = subprocess.run(['git','-C',wt,'diff','--name-only','HEAD'],capture_output=True,text=True).stdout.split()
+files += subprocess.run(['git','-C',wt,'ls-files','--others','--exclude-standard'],capture_output=True,text=True).stdout.split()
+import os
+rep = {}
+for f in sorted(set(files)):
+    if not f.endswith('.go'): continue
+    rep["/repo/"+f] = (wt+"/"+f) if os.path.exists(wt+"/"+f) else ""
+json.dump({"Replace": rep}, open(ov,'w'))
 PY
 for p in $PROPS; do
   out=$(cd /verif && bin/kvet check -prop $p -no-evidence -overlay $OV 2>&1); rc=$?
